@@ -1,6 +1,8 @@
 #!/usr/bin/env python3
 """Writes /tmp/seedprompts/<ID>.txt: the brief for a blind mutation-seeding sub-agent (gets the property text only)."""
-import json, sys
+import json, os, sys
+ROOT = os.environ.get("SEEDROOT", "/tmp/seed")
+L1, L2 = os.environ.get("SEEDLETTERS", "A B").split()
 props = {json.loads(l)['id']: json.loads(l) for l in open('/verif/properties.jsonl')}
 for pid in sys.argv[1:]:
     p = props[pid]
@@ -15,10 +17,10 @@ Quantified over: {p['quantifier']['text']}
 Code it is anchored in: {files}
 
 Your workspace: create your own scratch git worktree of the repository and work only there:
-  git -C /repo worktree add --detach /tmp/seed/{pid} HEAD
-(never edit /repo itself; do NOT use `git stash` — the stash is shared between all worktrees of /repo and other people work in sibling worktrees; use `git diff > file` / `git apply` / `git checkout -- .` instead). Go commands must run offline:  cd /tmp/seed/{pid} && env -u GOFLAGS -u GOSUMDB GOPROXY=off go test -vet=off -count=1 ./<pkg>/...
+  git -C /repo worktree add --detach {ROOT}/{pid} HEAD
+(never edit /repo itself; do NOT use `git stash` — the stash is shared between all worktrees of /repo and other people work in sibling worktrees; use `git diff > file` / `git apply` / `git checkout -- .` instead). Go commands must run offline:  cd {ROOT}/{pid} && env -u GOFLAGS -u GOSUMDB GOPROXY=off go test -vet=off -count=1 ./<pkg>/...
 
-Task: produce TWO different, independent changes (A and B) to the non-test source code of golang/net, each of which
+Task: produce TWO different, independent changes ({L1} and {L2}) to the non-test source code of golang/net, each of which
  (1) still compiles, (2) still passes the existing tests of the affected package(s) unedited (run them; ideally also the
  packages that import it), (3) makes the property above false for some input / schedule / history, and (4) needs something
  SPECIFIC to manifest — a boundary value, an unusual input, a particular interleaving, a multi-step sequence of operations,
@@ -28,12 +30,12 @@ Task: produce TWO different, independent changes (A and B) to the non-test sourc
 For each change write a demonstration: an ordinary Go test file (or small program) that FAILS with the change applied and
 PASSES on the unmodified tree; verify both yourself.
 
-Deliver, for X in A, B:
-  /tmp/seed/{pid}/out/X/patch.diff      (git diff of the change against HEAD, source files only)
-  /tmp/seed/{pid}/out/X/demo_test.go    (the demonstration; say in a comment which package directory it belongs in)
-  /tmp/seed/{pid}/out/X/meta.json       {{"property":"{pid}","what":"<one paragraph: what was changed>","needs":"<what it needs in order to manifest>","ran":["<commands you ran and their outcome>"]}}
-Leave the worktree itself clean at the end (git -C /tmp/seed/{pid} checkout -- . ; remove the demo from the tree) — the
-deliverables live only under out/. Final answer: two short paragraphs describing A and B and confirming the four points.
+Deliver, for X in {L1}, {L2}:
+  {ROOT}/{pid}/out/X/patch.diff      (git diff of the change against HEAD, source files only)
+  {ROOT}/{pid}/out/X/demo_test.go    (the demonstration; say in a comment which package directory it belongs in)
+  {ROOT}/{pid}/out/X/meta.json       {{"property":"{pid}","what":"<one paragraph: what was changed>","needs":"<what it needs in order to manifest>","ran":["<commands you ran and their outcome>"]}}
+Leave the worktree itself clean at the end (git -C {ROOT}/{pid} checkout -- . ; remove the demo from the tree) — the
+deliverables live only under out/. Final answer: two short paragraphs describing {L1} and {L2} and confirming the four points.
 """
-    open(f'/tmp/seedprompts/{pid}.txt', 'w').write(txt)
+    open(f'/tmp/seedprompts/{pid}{os.environ.get("SEEDSUFFIX","")}.txt', 'w').write(txt)
     print(pid, 'ok')
